@@ -299,6 +299,19 @@ C08_CONSTS = {
 }
 
 
+# hand-written fragment texts beyond the bounded universes: hetero-aromatic rings and thioethers (a bare atom directly
+# followed by a lower-case atom: Cn, Sc, Sn, Cs ...), nodes of coarse fragments that open or close several rings with
+# and without an order symbol, markers of both forms
+EXTRA_FRAGMENTS = [
+    ("CSc1ccccc1[$]", False), ("Cn1cccc1[>]", False), ("[$]CSc1ccc([$])cc1", False), ("Cn1ccnc1[<]C", False),
+    ("[<]CSc1ccccc1C[>]", False), ("Cc1ccc(cc1)Sc1ccccc1[$]", False), ("CCn1cccc1C[$]=[$]", False),
+    ("OCc1ccsc1[$a]", False), ("[$]Cc1ccoc1C[$]", False), ("Cn1cc([$])cn1", False),
+    ("[#A]=12[#B][#C]1[#D]2[$]", True), ("[#A]1=2[#B][#C]1[#D]2[>]", True), ("[$][#A].12[#B][#B]1[#B]2", True),
+    ("[#A]=1.2[#B][#C]2[#D]1[<]", True), ("[#A]12[#B][#C]=1[#D]2[$]", True), ("[>][#A]=1[#B]2[#C]1[#D][#A]2", True),
+    ("[#A]=%10%11[#B][#C]%10[#D]%11[$]", True), ("[#A]#12=3[#B][#C]1[#D]2[#E]3[$]", True),
+]
+
+
 def run_c08(tier):
     from . import frag, resolve
     check = Check("C08", tier=tier)
@@ -315,6 +328,7 @@ def run_c08(tier):
     check.exhaustive = True
     t, r = frag.frag_mc(check, "c08_sim", simulate="num=%d" % (100 if tier == "quick" else 1500), depth=24, seed=common.SEED + 21)
     items += t
+    items += [(render.tokenize_fragment(txt, coarse), coarse) for txt, coarse in EXTRA_FRAGMENTS]
     recs = resolve.pmap(_rt_one, items)
     slim = [{k: r[k] for k in RT_FIELDS} for r in recs]
     verdicts, stats = tlc.validate("FragTextTrace", slim)
